@@ -98,12 +98,21 @@ func c06r1(r *R) {
 	fc := c.Func("pkg/metadata", "FromContext")
 	r.need(fc != nil, "FromContext not found")
 	o2 := r.Ob("C06.R1", "lookup:"+funcName(fc)).At(fc.Pos())
-	eachInstr(fc, func(i ssa.Instruction) {
-		if ret, ok := i.(*ssa.Return); ok {
-			e := c.Expr(ret.Results[0])
-			o2.Check(e == "assert[*metadata.Metadata]((context.Context).Value(p0, metadata.FingerproxyContextKey))#0", "FromContext returns %s", e)
+	stored := "(context.Context).Value(p0, metadata.FingerproxyContextKey)"
+	nret := 0
+	for _, ra := range c.returnAlts(fc, 0) {
+		nret++
+		o2.AtI(ra.Ret)
+		switch {
+		case ra.E == "assert[*metadata.Metadata]("+stored+")#0":
+		case ra.E == "nil":
+			// nothing (or something else) is stored under the key
+			o2.Check(relHolds(ra.Lits, stored, "==", "nil") || hasGuard(ra.Lits, "-assert[*metadata.Metadata]("+stored+")#1"), "FromContext returns nil under %v although a record is stored in the context", ra.Lits)
+		default:
+			o2.Fail("FromContext returns %s", ra.E)
 		}
-	})
+	}
+	o2.Check(nret > 0, "FromContext has no return")
 	key := c.Global("pkg/metadata", "FingerproxyContextKey")
 	if o2.Check(key != nil, "context key not found") {
 		for _, w := range globalWriters(c.FuncsIn(), key) {
